@@ -13,7 +13,14 @@ RULE = ('test recording = n x c matrix with entry (r, j) = r*c + j in the sample
         'channels, integers also as np.int64, on flat files (all layouts) and in-memory arrays (single part); the same abstract cases '
         'sampled on .npy, flat files with header offsets / trailing bytes / other dtypes, and real mtscomp '
         '.cbin files; reader attributes for every layout; then seeded random larger cases (n <= 2000, <= 6 '
-        'files, boundary-biased, column selectors also arbitrary slices with steps +-1/+-2 and index lists with negative / repeated entries). Non-trivial = the recording has >= 2 parts or a column selector is present; '
+        'files, boundary-biased, column selectors also arbitrary slices with steps +-1/+-2 and index lists with negative / repeated entries). '
+        'Stage 3: layouts with files of 0 rows (header / trailing bytes only) for every composition of n <= 3 (quick) / 4 x every item; the one-element '
+        'tuple form reader[(item,)]; .npy / .cbin given as a list of one path; _get_subitems called directly (item, (item,), (item, cols)) for every '
+        'composition of n <= 4 / 5 x every item, judged relationally (its sub-items read part by part give the NumPy rows); and, OUTSIDE the '
+        'statement (judged against the model with exception classes only, code 1): every composition of n <= 3 / 4 x every integer in [-2n-1, 2n+1] x '
+        'every slice with bounds in {None} u [-n-2, n+2] (steps None, and 0 / 1 / 2 / -1 in rotation) x every index list of <= 2 entries over [-1, n] '
+        '(unordered, repeated, empty), column selectors NumPy rejects, empty recordings, several .cbin paths (first file only), constructor arguments '
+        '(n_channels 0, empty file, offset beyond the file, sample_rate 0). Non-trivial = the recording has >= 2 parts or a column selector is present; '
         'distinct = distinct abstract input + configuration.')
 EXHAUSTIVE = {'quick': True, 'thorough': True}
 CLAUSES = {
@@ -24,6 +31,7 @@ CLAUSES = {
     23: 'C01_bounds / C01_memmap_rows: shape / n_samples / n_channels are not those of the concatenated array',
     24: 'reader.dtype differs from the sample dtype',
     25: 'duration differs from n_samples / sample_rate',
+    26: 'C01_duration: duration is not within one binary64 rounding of the rational n_samples / sample_rate',
 }
 TRUSTED = ['np.memmap, np.load(mmap_mode), np.vstack, NumPy basic/fancy indexing of ONE array (the model\'s '
            'per-part read and the reference are the same NumPy-semantics primitive)',
@@ -32,7 +40,9 @@ TRUSTED = ['np.memmap, np.load(mmap_mode), np.vstack, NumPy basic/fancy indexing
 ASSUMES = ['integers in [-n, n); slices with step None/1 and bounds in {None} u [-n, n] selecting >= 1 row; '
            'lists/arrays non-empty, strictly increasing, within [0, n); rows then columns; reader[:, cols] '
            '(exactly slice(None)) returns a reader (C02); multi-file layouts only for flat binaries; no index '
-           'lists on .cbin']
+           'lists on .cbin',
+           'inputs of kind any / ctor are outside the statement: only agreement with the model (exception class '
+           'included) is checked there, never a property clause']
 TIMEOUT = {'quick': 20, 'thorough': 60}
 COQ_HEADER = 'From Coq Require Import Floats.\n'
 
@@ -41,6 +51,9 @@ DTMAX = {'uint8': 255, 'int16': 32767, 'int32': 2 ** 31 - 1, 'int64': 2 ** 62, '
 ITEMSIZE = {'uint8': 1, 'int16': 2, 'int32': 4, 'int64': 8, 'float32': 4, 'float64': 8}
 DEFCFG = {'backend': 'flat', 'dtype': 'int16', 'offset': 0, 'junk': 0, 'as': 'list', 'rate': 3.0, 'd': 2,
           'ext': '.bin'}
+# optional keys (absent = False / none): 'used' (reader already queried), 'tuple1' (reader[(item,)]), 'aslist' (.npy / .cbin
+# given as [path]), 'extra' (.cbin: lengths of further files passed after the first; phylib reads the first only)
+EXN = {'IndexError': 1, 'ValueError': 2, 'AssertionError': 3, 'ZeroDivisionError': 4}
 
 
 def _cfg(**kw):
@@ -113,12 +126,13 @@ def valid_cols(c, cols):
     return all(-c <= x < c for x in cols[1])
 
 
-def valid_case(case):
-    i = case['inp']
-    cfg = i['cfg']
-    sizes, c = i['sizes'], i['c']
+def _layout_ok(sizes, c, cfg, allow_empty=False):
+    """files of the recording can be materialised: sizes >= 0 (a file of 0 rows needs a header or trailing bytes: an
+    empty file cannot be memory-mapped), >= 1 row in all unless allow_empty (in-memory array only)"""
+    if not sizes or min(sizes) < 0 or c < 1:
+        return False
     n = sum(sizes)
-    if not sizes or min(sizes) < 1 or c < 1:
+    if n == 0 and not (allow_empty and cfg['backend'] == 'array'):
         return False
     if n * c - 1 > DTMAX[cfg['dtype']]:
         return False
@@ -126,11 +140,47 @@ def valid_case(case):
         return False
     if cfg['backend'] != 'flat' and len(sizes) != 1:
         return False
-    if case['kind'] == 'attrs':
+    if cfg['backend'] == 'flat' and min(sizes) == 0 and cfg['offset'] + cfg['junk'] == 0:
+        return False
+    if cfg.get('extra') and cfg['backend'] != 'cbin':
+        return False
+    if cfg.get('aslist') and cfg['backend'] not in ('npy', 'cbin'):
+        return False
+    return True
+
+
+def valid_case(case):
+    i = case['inp']
+    k = case['kind']
+    if k == 'sub':
+        sizes = i['sizes']
+        return bool(sizes) and min(sizes) >= 0 and sum(sizes) >= 1 and valid_item(sum(sizes), i['item']) and \
+            i['form'] in ('plain', 'tuple1', 'tuple2')
+    if k == 'ctor':
+        return bool(i['fbytes']) and min(i['fbytes']) >= 0 and i['offset'] >= 0 and i['dtype'] in ITEMSIZE
+    cfg = i['cfg']
+    sizes, c = i['sizes'], i['c']
+    n = sum(sizes)
+    if k == 'any':
+        if not _layout_ok(sizes, c, cfg, allow_empty=True):
+            return False
+        it, cols = i['item'], i['cols']
+        if cfg['backend'] == 'cbin' and it[0] == 'list':
+            return False
+        # a column selector NumPy rejects only together with a row index of the statement's regime (a block of 0 rows
+        # has no column count in the model)
+        if not valid_cols(c, cols) and not valid_item(n, it):
+            return False
+        return True
+    if not _layout_ok(sizes, c, cfg) or cfg.get('extra'):
+        return False
+    if k == 'attrs':
         return True
     if not valid_item(n, i['item']) or not valid_cols(c, i['cols']):
         return False
     if cfg['backend'] == 'cbin' and i['item'][0] == 'list':
+        return False
+    if cfg.get('tuple1') and i['cols'] is not None:
         return False
     return True
 
@@ -146,6 +196,22 @@ def _norm(case):
 def _get(sizes, c, item, cols, **cfg):
     return _norm({'kind': 'get', 'inp': {'sizes': list(sizes), 'c': c, 'item': item, 'cols': cols,
                                          'cfg': _cfg(**cfg)}})
+
+
+def _any(sizes, c, item, cols, **cfg):
+    """an input OUTSIDE the statement (or not known to be inside): compared with the model only"""
+    return _norm({'kind': 'any', 'inp': {'sizes': list(sizes), 'c': c, 'item': item, 'cols': cols,
+                                         'cfg': _cfg(**cfg)}})
+
+
+def _sub(sizes, item, form='plain', **kw):
+    """_get_subitems(bounds, item) called directly; form tuple1 = (item,), tuple2 = (item, cols)"""
+    return {'kind': 'sub', 'inp': {'sizes': list(sizes), 'item': item, 'form': form, 'as': kw.get('as', 'list')}}
+
+
+def _ctor(fbytes, c, offset=0, dtype='int16', rate=3.0):
+    """FlatEphysReader on files of the given byte lengths"""
+    return {'kind': 'ctor', 'inp': {'fbytes': list(fbytes), 'c': c, 'offset': offset, 'dtype': dtype, 'rate': rate}}
 
 
 def _attrs(sizes, c, **cfg):
@@ -179,6 +245,57 @@ CORPUS = [
     _attrs([1, 3, 2], 3), _attrs([5], 2, backend='array'), _attrs([5], 2, backend='npy'),
     _attrs([6], 3, backend='cbin', d=4), _attrs([2, 3], 2, dtype='float64', offset=64, junk=5, rate=2.5),
     _attrs([7], 4, dtype='int32', rate=30000.0),
+    # ---- stage 3 ----
+    # a file of 0 rows (header / trailing bytes only) at the start, in the middle, at the end, twice
+    _get([0, 2, 3], 2, ['slice', 1, 4, None], None, offset=7), _get([2, 0, 3], 2, ['int', 2], None, offset=1),
+    _get([2, 3, 0], 2, ['list', [1, 2, 4]], ['list', [1, 0]], junk=1), _get([2, 0, 0, 3], 2, ['slice', -4, -1, None], None, offset=64),
+    _attrs([2, 0, 3], 2, offset=7), _attrs([0, 4], 3, junk=2, dtype='float32'),
+    # reader[(item,)] (line 218), .npy / .cbin given as a list of one path
+    _get([1, 3, 2], 3, ['slice', 1, 5, None], None, tuple1=True), _get([1, 3, 2], 3, ['int', -2], None, tuple1=True),
+    _get([1, 3, 2], 3, ['list', [0, 3, 5]], None, tuple1=True, **{'as': 'array'}),
+    _get([4], 2, ['slice', 1, -1, None], ['list', [1, 0]], backend='npy', aslist=True),
+    _get([6], 3, ['int', 4], None, backend='cbin', d=2, aslist=True), _attrs([5], 2, backend='npy', aslist=True),
+    _attrs([6], 3, backend='cbin', d=4, aslist=True),
+    # _get_subitems called directly, also with the tuple forms (line 91)
+    _sub([1, 3, 2], ['slice', 1, 5, None]), _sub([1, 3, 2], ['slice', 1, 5, None], 'tuple2'),
+    _sub([1, 3, 2], ['list', [0, 3, 5]], 'tuple2', **{'as': 'array'}), _sub([1, 3, 2], ['int', -2], 'tuple1'),
+    _sub([2, 0, 1], ['slice', 1, None, None]),
+    # OUTSIDE the statement (model only).  Integers: >= n IndexError (lines 86 / 98), < -n wraps modulo n
+    _any([1, 3, 2], 3, ['int', 6], None), _any([1, 3, 2], 3, ['int', 100], None, **{'as': 'array'}),
+    _any([1, 3, 2], 3, ['int', -7], None), _any([1, 3, 2], 3, ['int', -13], None), _any([6], 2, ['int', 6], None, backend='cbin'),
+    # lists: entry >= n IndexError, negative entry ValueError (unpacking), repeated AssertionError, unordered = grouped by file
+    _any([1, 3, 2], 3, ['list', [6]], None), _any([1, 3, 2], 3, ['list', [0, 6]], None, **{'as': 'array'}),
+    _any([1, 3, 2], 3, ['list', [-1]], None), _any([1, 3, 2], 3, ['list', [0, -1]], None),
+    _any([1, 3, 2], 3, ['list', [1, 1]], None), _any([1, 3, 2], 3, ['list', [1, 2, 2]], None),
+    _any([1, 3, 2], 3, ['list', [2, 1]], None), _any([1, 3, 2], 3, ['list', [4, 1]], None), _any([1, 3, 2], 3, ['list', [1, 4, 2]], None),
+    _any([1, 3, 2], 3, ['list', []], None), _any([1, 3, 2], 3, ['list', []], None, **{'as': 'array'}), _any([6], 2, ['list', []], None, backend='npy'),
+    # slices: stop = 0 read as None; empty inside one file = 0 rows; empty at / across a file boundary, start = n,
+    # stop = -n: np.vstack([]) ValueError; bounds beyond [-n, n] wrap modulo n; steps
+    _any([1, 3, 2], 3, ['slice', 1, 0, None], None), _any([1, 3, 2], 3, ['slice', 0, 0, None], None),
+    _any([1, 3, 2], 3, ['slice', 2, 2, None], None), _any([1, 3, 2], 3, ['slice', 3, 2, None], ['list', [2, 0]]),
+    _any([1, 3, 2], 3, ['slice', 1, 1, None], None), _any([1, 3, 2], 3, ['slice', 4, 4, None], None),
+    _any([1, 3, 2], 3, ['slice', 4, 1, None], None), _any([1, 3, 2], 3, ['slice', 6, None, None], None),
+    _any([1, 3, 2], 3, ['slice', 6, 6, None], None), _any([1, 3, 2], 3, ['slice', None, -6, None], None),
+    _any([1, 3, 2], 3, ['slice', 7, None, None], None), _any([1, 3, 2], 3, ['slice', None, 7, None], None),
+    _any([1, 3, 2], 3, ['slice', -7, None, None], None), _any([1, 3, 2], 3, ['slice', None, -7, None], None),
+    _any([1, 3, 2], 3, ['slice', -100, 3, None], None), _any([1, 3, 2], 3, ['slice', 0, 100, None], None),
+    _any([1, 3, 2], 3, ['slice', None, None, 2], None), _any([1, 3, 2], 3, ['slice', None, None, -1], None),
+    _any([1, 3, 2], 3, ['slice', 1, 4, 2], None), _any([1, 3, 2], 3, ['slice', None, None, 0], None),
+    _any([6], 3, ['slice', 2, 2, None], None, backend='cbin', d=2), _any([6], 3, ['slice', 6, None, None], None, backend='array'),
+    # column selectors NumPy rejects
+    _any([1, 3, 2], 3, ['int', 0], ['list', [5]]), _any([1, 3, 2], 3, ['int', 0], ['list', [-4]]),
+    _any([1, 3, 2], 3, ['slice', 1, 5, None], ['slice', None, None, 0]), _any([1, 3, 2], 3, ['int', 0], ['slice', 7, None, None]),
+    # an empty recording
+    _any([0], 2, ['int', 0], None, backend='array'), _any([0], 2, ['int', -1], None, backend='array'),
+    _any([0], 2, ['slice', None, None, None], None, backend='array'), _any([0], 2, ['slice', -1, None, None], None, backend='array'),
+    _any([0], 2, ['list', [0]], None, backend='array'), _any([0], 2, ['list', []], None, backend='array'),
+    # several .cbin paths: phylib reads the first file only (lines 342-348)
+    _any([6], 3, ['slice', 1, 5, None], None, backend='cbin', d=2, extra=[4]),
+    _any([6], 3, ['int', 6], None, backend='cbin', d=2, extra=[4, 3]), _any([6], 3, ['int', -1], None, backend='cbin', d=4, extra=[2]),
+    # constructor: n_channels <= 0 (assert), empty file, offset beyond the file, sample_rate 0, a file shorter than one row
+    _ctor([12], 0), _ctor([12], -1), _ctor([0], 2), _ctor([12, 0], 2), _ctor([12], 2, offset=12), _ctor([12], 2, offset=14),
+    _ctor([12], 2, rate=0.0), _ctor([12], 2, rate=-1.0), _ctor([12], 2, rate=1e-4), _ctor([12, 5], 3), _ctor([5], 3),
+    _ctor([12, 13], 2, offset=1, dtype='float32'),
 ]
 
 
@@ -197,7 +314,10 @@ def _exhaustive(nfull, nrot):
                     for si in (range(5) if n <= nfull else [k % 5]):
                         c = 1 + (k + si) % 4
                         cols = cols_for(c)[si]
-                        cases.append(_get(sizes, c, it, cols, **{'as': form}))
+                        if cols is None and k % 5 == 1:
+                            cases.append(_get(sizes, c, it, cols, tuple1=True, **{'as': form}))     # reader[(item,)]
+                        else:
+                            cases.append(_get(sizes, c, it, cols, **{'as': form}))
                         if len(sizes) == 1:
                             cases.append(_get(sizes, c, it, cols, backend='array', **{'as': form}))
     return cases
@@ -224,6 +344,8 @@ def _config_sample(base, rng, count):
                                                       else ['int16', 'int32']),
                        d=rng.choice([1, 2, 3, 5, 40]))
             cfg['as'] = i['cfg']['as']
+            if rng.random() < 0.3:
+                cfg['aslist'] = True
             nc = {'kind': 'get', 'inp': dict(i, sizes=[n], cfg=cfg)}
         if valid_case(nc):
             out.append(nc)
@@ -324,6 +446,107 @@ def _attr_cases(nmax, rng):
     return [c for c in out if valid_case(c)]
 
 
+def _with_zeros(sizes):
+    """the layouts obtained by adding files of 0 rows to a composition: one at each position, and two somewhere"""
+    out = []
+    for pos in range(len(sizes) + 1):
+        out.append(sizes[:pos] + [0] + sizes[pos:])
+    out.append([0] + sizes + [0])
+    out.append(sizes[:1] + [0, 0] + sizes[1:])
+    return out
+
+
+def _zero_part_cases(nmax):
+    """inside the statement: recordings some of whose files hold 0 rows (a header and / or trailing bytes only)"""
+    cases = []
+    k = 0
+    for n in range(1, nmax + 1):
+        its = items_for(n)
+        for comp in compositions(n):
+            for sizes in _with_zeros(comp):
+                for it in its:
+                    k += 1
+                    c = 1 + k % 3
+                    cols = cols_for(c)[k % 5] if k % 2 else None
+                    cfg = [dict(offset=1), dict(offset=7, dtype='float32'), dict(junk=1, dtype='int32', offset=0),
+                           dict(offset=64, junk=1)][k % 4]
+                    cfg['as'] = 'array' if k % 3 == 0 else 'list'
+                    case = _get(sizes, c, it, cols, **cfg)
+                    if valid_case(case):
+                        cases.append(case)
+                if len(sizes) <= 4:
+                    k += 1
+                    case = _attrs(sizes, 1 + k % 3, offset=[1, 7][k % 2], dtype=['int16', 'float64'][k % 2])
+                    if valid_case(case):
+                        cases.append(case)
+    return cases
+
+
+def _sub_cases(nmax):
+    """_get_subitems(bounds, item) called directly, with the three forms of item"""
+    cases = []
+    k = 0
+    for n in range(1, nmax + 1):
+        its = items_for(n)
+        layouts = list(compositions(n))
+        layouts += [z for comp in layouts[:3] for z in _with_zeros(comp)[:2]]
+        for sizes in layouts:
+            for it in its:
+                k += 1
+                cases.append(_sub(sizes, it, ('plain', 'tuple2', 'tuple1')[k % 3], **{'as': ('list', 'array')[k % 2]}))
+    return cases
+
+
+def _any_items(n):
+    out = [['int', i] for i in range(-2 * n - 1, 2 * n + 2)]
+    bounds = [None] + list(range(-n - 2, n + 3))
+    k = 0
+    for a in bounds:
+        for b in bounds:
+            k += 1
+            out.append(['slice', a, b, None])
+            if k % 5 == 0:
+                out.append(['slice', a, b, [1, 0, 2, -1][(k // 5) % 4]])
+    vals = list(range(-1, n + 1))
+    out.append(['list', []])
+    for x in vals:
+        out.append(['list', [x]])
+        for y in vals:
+            out.append(['list', [x, y]])
+    for x in vals:
+        out.append(['list', [x, x + 1, x]])
+        out.append(['list', [n - 1, x, 0]])
+    return out
+
+
+def _any_cases(nmax):
+    """OUTSIDE the statement (and, mixed in, inside): every integer / slice / short index list around the valid range"""
+    cases = []
+    k = 0
+    for n in range(1, nmax + 1):
+        its = _any_items(n)
+        for comp in compositions(n):
+            layouts = [comp] + (_with_zeros(comp)[1:2] if n <= 2 else [])
+            for sizes in layouts:
+                for it in its:
+                    k += 1
+                    c = 1 + k % 3
+                    cols = None
+                    if k % 4 == 0:
+                        cols = cols_for(c)[1 + k % 4]
+                    elif k % 7 == 0 and valid_item(n, it):
+                        cols = [['list', [c]], ['list', [-c - 1]], ['slice', None, None, 0]][k % 3]   # NumPy rejects
+                    cfg = {'as': 'array' if k % 2 else 'list'}
+                    if 0 in sizes:
+                        cfg['offset'] = 1
+                    if len(sizes) == 1 and k % 3 == 0:
+                        cfg['backend'] = 'array'
+                    case = _any(sizes, c, it, cols, **cfg)
+                    if valid_case(case):
+                        cases.append(case)
+    return cases
+
+
 def generate(tier, rng):
     cases = [c for c in CORPUS]
     if tier == 'search':
@@ -334,6 +557,9 @@ def generate(tier, rng):
     cases += _attr_cases(6 if quick else 9, rng)
     cases += _config_sample(base, rng, 1200 if quick else 12000)
     cases += _random(rng, 400 if quick else 4000, 2000)
+    cases += _zero_part_cases(3 if quick else 4)
+    cases += _sub_cases(4 if quick else 5)
+    cases += _any_cases(3 if quick else 4)
     for c in cases:
         assert valid_case(c), c
     # one 'get' case in three is asked of a reader object that has already answered other queries (a read with
@@ -418,7 +644,7 @@ def make_reader(d, sizes, c, cfg):
     if be == 'npy':
         p = Path(d + 'a.npy')
         np.save(p, A)
-        return get_ephys_reader(p, sample_rate=rate), (lambda: None), info
+        return get_ephys_reader([p] if cfg.get('aslist') else p, sample_rate=rate), (lambda: None), info
     if be == 'cbin':
         import mtscomp
         p = Path(d + 'a.bin')
@@ -426,7 +652,18 @@ def make_reader(d, sizes, c, cfg):
         # chunk_duration d/10 s at 10 Hz = chunks of d samples
         mtscomp.compress(p, Path(d + 'a.cbin'), Path(d + 'a.ch'), sample_rate=10., n_channels=c, dtype=dtype,
                          chunk_duration=cfg['d'] / 10., n_threads=1, check_after_compress=False, quiet=True)
-        r = get_ephys_reader(Path(d + 'a.cbin'))
+        arg = Path(d + 'a.cbin')
+        if cfg.get('aslist') or cfg.get('extra'):
+            arg = [arg]
+        for j, m in enumerate(cfg.get('extra') or []):
+            # further compressed files, holding other values: phylib reads the first file only
+            pj = Path(d + 'x%d.bin' % j)
+            (matrix(m, c, dtype) + 1000).astype(dtype).tofile(pj)
+            mtscomp.compress(pj, Path(d + 'x%d.cbin' % j), Path(d + 'x%d.ch' % j), sample_rate=10., n_channels=c,
+                             dtype=dtype, chunk_duration=cfg['d'] / 10., n_threads=1, check_after_compress=False,
+                             quiet=True)
+            arg.append(Path(d + 'x%d.cbin' % j))
+        r = get_ephys_reader(arg)
         return r, r.reader.close, info
     raise ValueError(be)
 
@@ -459,9 +696,49 @@ def _block(out):
     return ('rows', _dtcode(out.dtype), [[int(v) for v in r] for r in rows])
 
 
+def _sub_obs(out):
+    """canonical form of what _get_subitems returned: [(part, sub-item)]"""
+    import numpy as np
+    res = []
+    for chunk, sub in out:
+        if isinstance(sub, slice):
+            res.append([int(chunk), ['slice'] + [None if v is None else int(v) for v in (sub.start, sub.stop, sub.step)]])
+        elif isinstance(sub, (list, np.ndarray)):
+            res.append([int(chunk), ['list', [int(v) for v in sub]]])
+        else:
+            res.append([int(chunk), ['int', int(sub)]])
+    return ('subs', res)
+
+
 def run_case(case):
     from phylib.io.traces import BaseEphysReader
     i = case['inp']
+    if case['kind'] == 'sub':
+        from phylib.io.traces import _get_subitems
+        bounds = [0]
+        for x in i['sizes']:
+            bounds.append(bounds[-1] + x)
+        it = py_item(i['item'], i['as'])
+        arg = {'plain': it, 'tuple1': (it,), 'tuple2': (it, [0])}[i['form']]
+        return _sub_obs(_get_subitems(bounds, arg))
+    if case['kind'] == 'ctor':
+        import numpy as np
+        from pathlib import Path
+        from phylib.io.traces import get_ephys_reader
+        d = _tmp()
+        try:
+            paths = []
+            for j, nb in enumerate(i['fbytes']):
+                p = Path(d + 'f%02d.bin' % j)
+                p.write_bytes(b'\x01' * nb)
+                paths.append(p)
+            r = get_ephys_reader(paths, sample_rate=i['rate'], dtype=np.dtype(i['dtype']), n_channels=i['c'],
+                                 offset=i['offset'])
+            pb = [int(x) for x in r.part_bounds]
+            del r
+            return ('bounds', pb)
+        finally:
+            _cleanup(d)
     cfg = i['cfg']
     d = _tmp()
     r = None
@@ -482,7 +759,7 @@ def run_case(case):
             r[-1:, ::-1]
             r[0]
         if i['cols'] is None:
-            out = r[it]
+            out = r[(it,)] if cfg.get('tuple1') else r[it]
         else:
             out = r[it, py_cols(i['cols'], cfg['as'])]
         if isinstance(out, BaseEphysReader):
@@ -534,42 +811,83 @@ def _flt(h):
     return '%s%%float' % h
 
 
+def _tok(x):
+    """the exact value m * 2^e of a finite float (m odd or 0)"""
+    import math
+    x = float(x)
+    assert math.isfinite(x), x
+    if x == 0:
+        return '(TNum 0 0)'
+    m, e = math.frexp(x)
+    m = int(m * 2 ** 53)
+    e -= 53
+    while m % 2 == 0:
+        m //= 2
+        e += 1
+    return q.app('TNum', q.z(m), q.z(e))
+
+
+def _raise(obs):
+    return q.app('ObsRaise', q.z(EXN.get(obs[1], 0)))
+
+
+def _subitem(s):
+    return q.app('mksub', q.z(s[0]), _item(s[1]))
+
+
 def encode(case, obs):
     i = case['inp']
+    if case['kind'] == 'sub':
+        cin = q.app('InSub', q.zl(i['sizes']), _item(i['item']))
+        if obs[0] == 'subs':
+            return cin, q.app('ObsSubs', q.lst(obs[1], _subitem))
+        return cin, 'ObsCrash'
+    if case['kind'] == 'ctor':
+        cin = q.app('InCtor', q.zl(i['fbytes']), q.z(i['offset']), q.z(ITEMSIZE[i['dtype']]), q.z(i['c']),
+                    q.z(int(round(600.0 * i['rate']))))
+        if obs[0] == 'bounds':
+            return cin, q.app('ObsBounds', q.zl(obs[1]))
+        return cin, (_raise(obs) if obs[0] == 'crash' else 'ObsOther')
     cfg = i['cfg']
     dt = DT[cfg['dtype']]
-    if case['kind'] == 'get':
-        cin = q.app('InGet', q.zl(i['sizes']), q.z(i['c']), q.z(dt), _item(i['item']), _cols(i['cols']))
+    if case['kind'] in ('get', 'any'):
+        cin = q.app('InGet' if case['kind'] == 'get' else 'InAny', q.zl(i['sizes']), q.z(i['c']), q.z(dt),
+                    _item(i['item']), _cols(i['cols']))
         if obs[0] == 'rows':
             cobs = q.app('ObsRows', q.z(obs[1]), q.zll(obs[2]))
         elif obs[0] == 'derived':
             cobs = q.app('ObsDerived', q.z(obs[1]), q.zll(obs[2]))
         elif obs[0] == 'crash':
-            cobs = 'ObsCrash'
+            cobs = _raise(obs) if case['kind'] == 'any' else 'ObsCrash'
         else:
             cobs = 'ObsOther'
         return cin, cobs
     # attrs
     if obs[0] != 'attrs':
         rate = 10.0 if cfg['backend'] == 'cbin' else float(cfg['rate'])
-        cin = q.app('InAttrs', q.zl(i['sizes']), q.z(i['c']), q.z(dt), q.z(int(round(600.0 * rate))), _flt(rate.hex()))
+        cin = q.app('InAttrs', q.zl(i['sizes']), q.z(i['c']), q.z(dt), q.z(int(round(600.0 * rate))), _flt(rate.hex()),
+                    _tok(rate))
         return cin, 'ObsCrash'
     _, s0, s1, ns, nc, dto, dur, pb, fsizes, rate, cs, nshape = obs
+    ratet = _tok(float.fromhex(rate))
     if fsizes is not None:
         cin = q.app('InFlatAttrs', q.zl(fsizes), q.z(cfg['offset']), q.z(ITEMSIZE[cfg['dtype']]), q.z(i['c']),
-                    q.z(dt), q.z(cs), _flt(rate))
+                    q.z(dt), q.z(cs), _flt(rate), ratet)
     else:
-        cin = q.app('InAttrs', q.zl(i['sizes']), q.z(i['c']), q.z(dt), q.z(cs), _flt(rate))
+        cin = q.app('InAttrs', q.zl(i['sizes']), q.z(i['c']), q.z(dt), q.z(cs), _flt(rate), ratet)
     if nshape != 2 or not dur.startswith('0x'):
         return cin, 'ObsOther'
-    cobs = q.app('ObsAttrs', q.z(s0), q.z(s1), q.z(ns), q.z(nc), q.z(dto), _flt(dur), q.zl(pb))
+    cobs = q.app('ObsAttrs', q.z(s0), q.z(s1), q.z(ns), q.z(nc), q.z(dto), _flt(dur), _tok(float.fromhex(dur)), q.zl(pb))
     return cin, cobs
 
 
 def nontrivial(case, obs):
-    if obs[0] in ('crash', 'other'):
-        return False
+    k = case['kind']
     i = case['inp']
+    if obs[0] == 'other' or (obs[0] == 'crash' and k not in ('any', 'ctor')):
+        return False
+    if k == 'ctor':
+        return True
     return len(i['sizes']) >= 2 or i.get('cols') is not None
 
 
@@ -579,19 +897,33 @@ def _bucket(n):
 
 def dist(case, obs):
     i = case['inp']
+    k = case['kind']
+    if k == 'sub':
+        return ['kind=sub', 'sub.form=' + i['form'], 'sub.item=' + i['item'][0], 'parts=%s' % _bucket(len(i['sizes'])),
+                'zero_row_file=%s' % (0 in i['sizes'])]
+    if k == 'ctor':
+        return ['kind=ctor', 'ctor.outcome=' + (obs[1] if obs[0] == 'crash' else obs[0])]
     cfg = i['cfg']
     out = ['kind=' + case['kind'], 'backend=' + cfg['backend'], 'dtype=' + cfg['dtype'],
-           'parts=%s' % _bucket(len(i['sizes'])), 'n=%s' % _bucket(sum(i['sizes'])), 'channels=%d' % i['c']]
+           'parts=%s' % _bucket(len(i['sizes'])), 'n=%s' % _bucket(sum(i['sizes'])), 'channels=%d' % i['c'],
+           'zero_row_file=%s' % (0 in i['sizes'])]
     if cfg['backend'] == 'flat':
         out.append('flat.offset=%d' % cfg['offset'])
         out.append('flat.trailing_bytes=%s' % (cfg['junk'] > 0))
+    if cfg.get('aslist') or cfg.get('extra'):
+        out.append('paths=list-of-%d' % (1 + len(cfg.get('extra') or [])))
     if obs[0] == 'crash':
-        out.append('crash=' + obs[1])
-    if case['kind'] == 'get':
+        out.append(('any.raises=' if k == 'any' else 'crash=') + obs[1])
+    if k == 'any':
+        out.append('any.item=' + i['item'][0])
+        if obs[0] == 'rows':
+            out.append('any.rows=%s' % _bucket(len(obs[2])))
+    if k == 'get':
         it = i['item']
         out.append('reader=' + ('already-used' if cfg.get('used') else 'fresh'))
         out.append('item=' + ({'list': 'list', 'array': 'ndarray'}[cfg['as']] if it[0] == 'list' else
-                              'np.int64' if it[0] == 'int' and cfg['as'] == 'array' else it[0]))
+                              'np.int64' if it[0] == 'int' and cfg['as'] == 'array' else it[0]) +
+                   ('-in-1-tuple' if cfg.get('tuple1') else ''))
         cols = i['cols']
         out.append('cols=' + ('none' if cols is None else
                               ('slice-negative-step' if (cols[3] or 1) < 0 else 'slice') if cols[0] == 'slice'
@@ -614,16 +946,30 @@ def dist(case, obs):
 
 def size(case):
     i = case['inp']
-    s = 10 * sum(i['sizes']) + 5 * len(i['sizes']) + i['c']
-    s += sum(1 for k, v in i['cfg'].items() if DEFCFG.get(k) != v)
-    if case['kind'] == 'get':
-        s += len(str(i['item'])) + len(str(i['cols']))
+    if case['kind'] == 'ctor':
+        return sum(i['fbytes']) + len(i['fbytes'])
+    s = 10 * sum(i['sizes']) + 5 * len(i['sizes']) + i.get('c', 0)
+    s += sum(1 for k, v in i.get('cfg', {}).items() if DEFCFG.get(k) != v)
+    if case['kind'] in ('get', 'any', 'sub'):
+        s += len(str(i['item'])) + len(str(i.get('cols')))
     return s
 
 
 def shrink(case):
     k = case['kind']
     i = case['inp']
+    if k in ('any', 'ctor'):
+        return          # judged against the model only: never the subject of a failing-input search
+    if k == 'sub':
+        # the same reductions as for a read, on (sizes, item)
+        g = {'kind': 'get', 'inp': {'sizes': i['sizes'], 'c': 1, 'item': i['item'], 'cols': None, 'cfg': _cfg(**{'as': i['as']})}}
+        for c in shrink(g):
+            j = c['inp']
+            if j['cfg'] == g['inp']['cfg'] and j['cols'] is None and j['c'] == 1:
+                yield {'kind': 'sub', 'inp': {'sizes': j['sizes'], 'item': j['item'], 'form': i['form'], 'as': i['as']}}
+        if i['form'] != 'plain':
+            yield {'kind': 'sub', 'inp': dict(i, form='plain')}
+        return
 
     def mk(**kw):
         j = dict(i)
@@ -636,6 +982,11 @@ def shrink(case):
         if cfg.get(key) != DEFCFG[key]:
             c2 = dict(cfg)
             c2[key] = DEFCFG[key]
+            cands.append(mk(cfg=c2))
+    for key in ('used', 'tuple1', 'aslist'):
+        if cfg.get(key):
+            c2 = dict(cfg)
+            del c2[key]
             cands.append(mk(cfg=c2))
     if cfg['backend'] in ('npy', 'cbin'):
         cands.append(mk(cfg=dict(cfg, backend='array')))
